@@ -22,6 +22,23 @@ JOIN = "std::thread::join_handle::JoinHandle::<T>::join"
 BW = "<fastpasta::write::writer::BufferedWriter<T> as fastpasta::write::writer::Writer<T>>::"
 
 
+def writer_trigger(cg, path, reach, depth=0):
+    """"drop" / "push" when `path` is the BufferedWriter's Drop impl / one of its push methods or a helper of the writer
+    module called only from those (transitively); None otherwise"""
+    flat = path.replace("<", "")
+    if not flat.startswith("fastpasta::write::writer::"):
+        return None
+    if path.endswith("core::ops::drop::Drop>::drop"):
+        return "drop"
+    if path.startswith(BW + "push_"):
+        return "push"
+    if depth > 3:
+        return None
+    callers = {p for p, bb, t, cal, c in cg.call_sites(lambda c_: c_ == path, within=reach)}
+    kinds = {writer_trigger(cg, p, reach, depth + 1) for p in callers}
+    return kinds.pop() if len(kinds) == 1 and None not in kinds else None
+
+
 def owned_endpoint(ty):
     s = REF_ENDPOINT.sub("REF<", ty)
     # Option<&Receiver<..>> etc. are references too (handled by the substitution above)
@@ -276,6 +293,9 @@ def run_output_rules(ctx, rep):
                 if hit:
                     n_w += 1
                     short = path.split("::")[-1] if "{closure" not in path else "::".join(path.split("::")[-2:])
+                    # keyed by what triggers the write (the buffer filling up during a push / the final flush in
+                    # Drop), not by the helper the `expect` happens to sit in
+                    short = writer_trigger(cg, path, reach) or short
                     k = "R17.4|expect_on_write|%s" % short
                     rep.bad("R17.4", k, "%s panics (`%s`) when %s fails — e.g. BrokenPipe after the consumer of stdout went away" % (short, cal.split("::")[-1], hit[0].split("::")[-1]),
                             "%s (%s)" % (path, where(t["sp"])))
